@@ -11,9 +11,9 @@ SINKS = ["direct", "callee"]
 class Chain:
     lang = "python"
 
-    def __init__(self, source, connectors, sink, split=False):
-        self.source, self.connectors, self.sink, self.split = source, list(connectors), sink, split
-        self.name = "%s__%s__%s%s" % (source, "_".join(connectors) or "none", sink, "@split" if split else "")
+    def __init__(self, source, connectors, sink, split=False, defined=False):
+        self.source, self.connectors, self.sink, self.split, self.defined = source, list(connectors), sink, split, defined
+        self.name = "%s__%s__%s%s%s" % (source, "_".join(connectors) or "none", sink, "@split" if split else "", "@def" if defined else "")
 
     def render(self):
         top, body = ["G0 = None", "", "class Box:", "    def __init__(self):", "        self.f = None", "        self.items = []", "",
@@ -67,7 +67,7 @@ class Chain:
                 body += ["oa%d = Box()" % i, "ob%d = oa%d" % (i + 50, i), "ob%d.f = %s" % (i + 50, cur), "%s = oa%d.f" % (nv, i)]
             elif k == "reassign_source":
                 # the same variable is assigned from a source a second time; the second value travels on through its own assignment
-                body += ["keep%d = %s" % (i, cur), "%s = source()" % cur, "%s = %s" % (nv, cur)]
+                body += ["keep%d = %s" % (i, cur), "sink(keep%d)" % i, "%s = source()" % cur, "%s = %s" % (nv, cur)]
             elif k == "loop_once":
                 body += ['%s = "clean"' % nv, "for i%d in range(1):" % i, "    %s = %s" % (nv, cur)]
             else:
@@ -81,6 +81,9 @@ class Chain:
             top += ["def use(a):", "    sink(a)", ""]
             body += ["use(%s)" % cur, "sink(clean)"]
         head = "def handler(p_src):" if self.source == "param" else "def handler(p_x):"
+        if self.defined:
+            # source and sink are functions of the analysed program (the rules still go by their names)
+            top = ["def source():", "    return \"data\"", "", "def sink(p):", "    return 0", ""] + top
         lines = top + [head] + ["    " + x for x in body] + ["", 'handler("a")', ""]
         return "\n".join(lines)
 
@@ -128,7 +131,7 @@ class JsChain(Chain):
             elif k == "branch":
                 body += ["var %s = null;" % nv, "if (1 > 0) {", "    %s = %s;" % (nv, cur), "} else {", '    %s = "clean";' % nv, "}"]
             elif k == "reassign_source":
-                body += ["var keep%d = %s;" % (i, cur), "%s = source();" % cur, "var %s = %s;" % (nv, cur)]
+                body += ["var keep%d = %s;" % (i, cur), "sink(keep%d);" % i, "%s = source();" % cur, "var %s = %s;" % (nv, cur)]
             elif k == "loop_once":
                 body += ['var %s = "clean";' % nv, "for (var i%d = 0; i%d < 1; i%d++) {" % (i, i, i), "    %s = %s;" % (nv, cur), "}"]
             elif k == "list_append":
@@ -167,6 +170,8 @@ def universe(tier, seed):
     two = [Chain(s, c, k) for s in SOURCES for c in itertools.product(CONNECTORS, repeat=2) for k in SINKS]
     # the same chains under a rule set in which every rule follows a same-name rule restricted to another file
     split = [Chain(c.source, c.connectors, c.sink, split=True) for c in one if len(c.connectors) == 0 or c.connectors[0] in ("assign", "field", "call_return", "list_append")]
+    defd = [Chain(s, c, k, defined=True) for s in SOURCES for c in [(), ("assign",), ("reassign_source",), ("field",), ("call_return",), ("reassign_source", "assign")] for k in SINKS]
+    one = one + defd
     if tier == "thorough":
         return one + split + two
     return one + split + random.Random(seed).sample(two, 60)
